@@ -78,6 +78,23 @@ Theorem C17_tolerated_missing : forall ps1 p ps2 x v comps,
   get (fst (apply_matcher (MAny ps1 x false) v)) (steps_of (fst (apply_matcher (MAny ps1 x false) v)) comps) = None ->
   apply_matcher (MAny (ps1 ++ p :: ps2)%list x false) v = apply_matcher (MAny (ps1 ++ ps2)%list x false) v.
 Proof. exact C17_tolerated_missing_any. Qed.
+(* ... the same for a Type matcher, for a Custom matcher, and for ANY matcher at the level of one path *)
+Theorem C17_tolerated_missing_type : forall ps1 p ps2 t v comps,
+  path_comps p = Some comps ->
+  get (fst (apply_matcher (MType ps1 t false) v)) (steps_of (fst (apply_matcher (MType ps1 t false) v)) comps) = None ->
+  apply_matcher (MType (ps1 ++ p :: ps2)%list t false) v = apply_matcher (MType (ps1 ++ ps2)%list t false) v.
+Proof. exact MatchersP.C17_tolerated_missing_type. Qed.
+Theorem C17_tolerated_missing_custom : forall p r v comps,
+  path_comps p = Some comps -> get v (steps_of v comps) = None ->
+  apply_matcher (MCustom p r false) v = (v, []).
+Proof. exact MatchersP.C17_tolerated_missing_custom. Qed.
+Theorem C17_tolerated_missing_path : forall m w p comps,
+  path_comps p = Some comps -> get w (steps_of w comps) = None -> matcher_eom m = false ->
+  path_outcome m w p = PRSkip.
+Proof. exact MatchersP.C17_tolerated_missing. Qed.
+Print Assumptions C17_tolerated_missing_type.
+Print Assumptions C17_tolerated_missing_custom.
+Print Assumptions C17_tolerated_missing_path.
 (* DISCARD: a failing matcher's output is thrown away - the next matcher gets the document the failing one received *)
 Theorem C17_discard_rule : forall m ms v,
   snd (apply_matcher m v) <> [] ->
@@ -91,3 +108,14 @@ Print Assumptions C17_null_has_no_type.
 Print Assumptions C17_callback_error_fails.
 Print Assumptions C17_tolerated_missing.
 Print Assumptions C17_discard_rule.
+
+(* non-vacuity: every theorem of this file that has hypotheses has a concrete, non-trivial instance meeting ALL of them
+   (lemmas <Theorem>_witness / <Theorem>_applied in Proofs/WitnessesP.v); a representative one is restated here *)
+From Snaps Require Import Proofs.WitnessesP.
+Example C17_witnesses :
+  (matcher_paths w17_m = w17_paths /\
+   path_outcome w17_m (doc_at w17_ms1 w17_m w17_ps1 exv) w17_p_ok = PRErr RType) /\
+  In w17_err (snd (apply_matchers w17_ms exv)) /\
+  snd (apply_matcher w17_m_fail exv) <> [] /\
+  (is_standalone AJson = false /\ bad_pre PMatchErr = Some EMatchers /\ ~ (AJson = ASnap /\ PMatchErr = PNoValues)).
+Proof. exact C17_witnesses_all. Qed.
